@@ -57,8 +57,8 @@ SNAP_TRUSTED = [
     "go-ordered-map and go-sortedmap are modelled as association lists with the semantics read from their sources",
 ]
 
-def snapprop(pid, level, module, theorems, streams, technique, level_text, level_note, extra_trusted=(), design=None):
-    PROPS[pid] = dict(level=level, technique=technique, module=module, translators=[], theorems=theorems, streams=streams,
+def snapprop(pid, level, module, theorems, streams, technique, level_text, level_note, extra_trusted=(), design=None, translators=()):
+    PROPS[pid] = dict(level=level, technique=technique, module=module, translators=list(translators), theorems=theorems, streams=streams,
                       trusted=SNAP_TRUSTED + list(extra_trusted), design_ref=design or f"DESIGN.md §6 {pid}", level_text=level_text, level_note=level_note)
 
 FUNC = "model-functional-vs-reference"
@@ -81,13 +81,14 @@ snapprop("C08", "proof", "Texel.Properties.C08",
     "Trusted: Lean kernel; the per-level structure of the model is tied to the code's per-level maps by the snap correspondence; on extents that do not divide evenly (float seam) depth independence does not hold exactly and is not claimed.")
 
 snapprop("C05", "proof", "Texel.Properties.C05",
-    ["Texel.C05.C05_no_empty_list", "Texel.C05.C05_no_keep_no_appended", "Texel.C05.C05_keep_extends", "Texel.C05.C05_shape", "Texel.C05.C05_at_least_three", "Texel.C05.C05_no_vertex_twice_partial", "Texel.C05.nodup_no_closing_duplicate"],
+    ["Texel.C05.C05_no_empty_list", "Texel.C05.C05_no_keep_no_appended", "Texel.C05.C05_keep_extends", "Texel.C05.C05_shape", "Texel.C05.C05_at_least_three", "Texel.C05.C05_no_vertex_twice_partial", "Texel.C05.nodup_no_closing_duplicate", "Texel.C05.C05_options_requested"],
     ["snap", FUNC],
     "Lean 4 theorems on the functional model (absent rather than empty; shell first, then holes, each of at least three vertices and correctly oriented, opposite under the reverse flag; keep-points-and-lines only appends single rings of at most two vertices) + exact ring-structure oracle on every implementation answer",
     "Theorems for all polygons (valid or not): a collapsed tile matrix is absent, never an empty list; with keep-points-and-lines every tile matrix present without it carries the same polygons followed by single-ring polygons. "
     "Every assembled polygon is its shell followed by its holes, all of at least three vertices, shell counter-clockwise (signed area >= 0) and holes clockwise, exactly the opposite under the reverse flag; collapsed parts are single rings of at most two vertices, none without the option "
     "(C05_shape, C05_at_least_three, through the functional cleanupNewRing/splitRing/dedupe/match and the proved area2 reversal). No ring of an assembled polygon visits a vertex twice (hence no closing duplicate, no equal neighbours): C05_no_vertex_twice_partial, proved from the stack invariant of splitRing and the exactness of the repeated-vertex flags under ONE explicit hypothesis, KmpNoDup (kmpDeduplicate returns no more copies of a vertex than it was given), which the kmp stream checks on the real code for every generated ring. These clauses are also decided by the oracle on every implementation answer, valid and arbitrary polygons, synthetic and real grids (the F4 repair lives there), each case with and without keep.",
-    "Trusted: Lean kernel; the functional forms cleanupNewRingF/dedupeF/matchF are compared with the transcribed do-notation reference on every snap/split operation (streams split, model-functional-vs-reference); the hypothesis KmpNoDup of C05_no_vertex_twice_partial is validated on the real kmpDeduplicate (stream kmp), not proved.")
+    "Trusted: Lean kernel; the functional forms cleanupNewRingF/dedupeF/matchF are compared with the transcribed do-notation reference on every snap/split operation (streams split, model-functional-vs-reference); the hypothesis KmpNoDup of C05_no_vertex_twice_partial is validated on the real kmpDeduplicate (stream kmp), not proved.",
+    translators=["flags"])
 
 snapprop("C07", "proof", "Texel.Properties.C07",
     ["Texel.C07.levelAcc_indep", "Texel.C07.C07_flag", "Texel.C07.reversePolys_involutive", "Texel.C07.C07_flag_presence", "Texel.C07.C07_ring_direction"],
@@ -98,7 +99,7 @@ snapprop("C07", "proof", "Texel.Properties.C07",
     "Trusted: Lean kernel; the model is a function by construction, so determinism of the code itself rests on the correspondence and the repetition runs; the model's exact integer area2 stands for the float orientation test of go-spatial (float seam, compared on every case).")
 
 snapprop("C03", "proof", "Texel.Properties.C03",
-    ["Texel.C03.C03_output_is_pixel_of_level", "Texel.C03.C03_index_in_range", "Texel.C03.C03_centre_in_pixel", "Texel.C03.C03_centre_exact", "Texel.C03.C03_centre_deepest", "Texel.C03.C03_round", "Texel.C03.C03_deviation", "Texel.C03.C03_pixel_size"],
+    ["Texel.C03.C03_output_is_pixel_of_level", "Texel.C03.C03_index_in_range", "Texel.C03.C03_centre_in_pixel", "Texel.C03.C03_centre_exact", "Texel.C03.C03_centre_deepest", "Texel.C03.C03_round", "Texel.C03.C03_deviation", "Texel.C03.C03_pixel_size", "Texel.C03.C03_pixel_is_sixteenth_of_cell"],
     ["snap", "quad"],
     "Lean 4 theorems on the integer centre formula (in its pixel, exact middle, equals the ideal centre on round extents, within the reported deviation otherwise) + bit-exact centre canonicalisation of every returned float",
     "Theorems: every vertex of everything snapPolygonF returns for level l stands for a pixel of that level (indices below 2^l); for every grid/level/pixel the coordinate handed out is inside its pixel, exactly its middle above the deepest level, equal to minX+(k+1/2)*XSpan/2^l when the extent divides evenly, and otherwise left of the ideal centre by less than XSpan mod 2^depth "
@@ -129,7 +130,7 @@ snapprop("C04", "other", "Texel.Properties.C04",
     ["snap", FUNC],
     "partial Lean 4 proof (first clause proved at full strength on the model: every output vertex is the pixel of an input vertex, through joining, spike removal, ring splitting, cancellation, hole matching, reversal and keep) + exact half-pixel-distance and coverage oracles on every implementation answer",
     "Partial proof + verified-oracle exploration: (a) is proved for everything snapPolygonF returns (C04_output_vertex_is_input_pixel); (b) is proved for the routed boundary of every ring, closing edge included (C04_routed_boundary_within_half_pixel: every point of every edge of joinChain(routeRing) is within half a pixel of the input ring, over Q), and through the whole of processLevel for polygons without holes on which nothing collapses (C04_edges_within_half_pixel_no_collapse); (b) half-pixel edge distance and (c) coverage beyond one pixel are decided per case by exact rational oracles "
-    "(5 points per output edge; up to 150 locations per case). Known finding F5.",
+    "(5 points per output edge; up to 150 locations per case). Known findings F5 and F13.",
     "The deformation/winding-parity argument behind (b),(c) is not machine-checked.",
     extra_trusted=["edge distance and coverage are explored with exact oracles, not proved"])
 
@@ -189,7 +190,7 @@ PROPS["C13"] = dict(level="proof", module="Texel.Properties.C13", translators=["
 
 PROPS["C14"] = dict(level="proof", module="Texel.Properties.C14", translators=["flags"],
     technique="Lean 4 theorem (IsQuadTree accepts iff the set is a true quadtree, by induction over the matrices) on a hand-written model + exhaustive perturbation correspondence + call order extracted from main.go",
-    theorems=["Texel.C14.localErr_none_iff", "Texel.C14.pairErr_none_iff", "Texel.C14.C14_iff", "Texel.C14.C14_validate_order", "Texel.C14.C14_doubling"],
+    theorems=["Texel.C14.localErr_none_iff", "Texel.C14.pairErr_none_iff", "Texel.C14.C14_iff", "Texel.C14.C14_validate_order", "Texel.C14.C14_doubling", "Texel.C14.firstErr_none_iff", "Texel.C14.C14_pixel_count"],
     streams=["isquad"], design_ref="DESIGN.md §6 C14",
     trusted=["Model.QuadTree is a hand-written mirror of pointindex.IsQuadTree, tied by the isquad correspondence: every accepted built-in set x every tile matrix x every single-field perturbation (enumerated completely), verdict and failing check compared",
              "cell sizes are exact rationals in the model; the code's single float division can differ from the exact ratio only within an ulp of the tolerance borders 1.99/2.01 (those two perturbations are run for 'no panic' only)",
